@@ -50,8 +50,13 @@ def construct_expression_tree(
         except ValueError:
             raise SyntaxError("Leaf node with bad string was encountered!")
 
+    if expression_ast[0] in LEGAL_NUMERICAL_EXPRESSIONS and len(expression_ast) != 3:
+        raise SyntaxError(
+            f"Only binary numerical expressions are supported, received - {expression_ast}"
+        )
+
     # This means that we have a list as a leaf --> a function that we need to create.
-    elif all([isinstance(item, str) for item in expression_ast]):
+    if all([isinstance(item, str) for item in expression_ast]):
         if expression_ast[0] in LEGAL_NUMERIC_OPERATORS:
             # Probably someone trying to perform numerical operation on constants.
             first_operand = float(expression_ast[1])
